@@ -242,6 +242,15 @@ def lattice(extra_floats=()):
     add("dict:{1:'a'}", "dict", {1: "a"})
     add("dict:{'a':[1]}", "dict", {"a": [1]})
     add("dict:{'a':'b'}", "dict", {"a": "b"})
+    # composite values around harness objects (for nested Instance specs)
+    add("tuple:(Plain(),1)", "tuple-obj", (Plain(), 1))
+    add("tuple:(PlainSub(),2)", "tuple-obj", (PlainSub(), 2))
+    add("tuple:(None,1)b", "tuple-obj", (None, 1))
+    add("tuple:(object(),1)", "tuple-obj", (object(), 1))
+    add("dict:{'a':Plain()}", "dict-obj", {"a": Plain()})
+    add("dict:{'a':None}", "dict-obj", {"a": None})
+    add("list:[(Plain(),1)]", "list-obj", [(Plain(), 1)])
+    add("list:[Plain()]", "list-obj", [Plain()])
     add("deque([1])", "deque", collections.deque([1]))
     add("range(3)", "range", range(3))
     for nm, v in (("int", int), ("float", float), ("str", str), ("Plain", Plain), ("PlainSub", PlainSub)):
